@@ -255,6 +255,17 @@ theorem deserFieldsX_congr (XO : XOracles) (opts : DeserOpts) (c : ClassOpts)
     have ih := deserFieldsX_congr XO opts c kw kw' rest (fun m hm => h m (by simp [hm]))
     simp only [deserFieldsX, hn, ih]
 
+theorem deserFieldsXU_congr (XO : XOracles) (opts : DeserOpts) (c : ClassOpts)
+    (kw kw' : List (String × PyVal)) :
+    ∀ (fs : List (String × XDecl)),
+      (∀ m ∈ fs.map (·.1), lookup m kw = lookup m kw') →
+      deserFieldsXU XO opts c kw fs = deserFieldsXU XO opts c kw' fs
+  | [], _ => by simp [deserFieldsXU]
+  | (n, f) :: rest, h => by
+    have hn := h n (by simp)
+    have ih := deserFieldsXU_congr XO opts c kw kw' rest (fun m hm => h m (by simp [hm]))
+    simp only [deserFieldsXU, hn, ih]
+
 theorem validateFieldsX_congr (XO : XOracles) (c : ClassOpts) (kw kw' : List (String × PyVal)) :
     ∀ (fs : List (String × XDecl)),
       (∀ m ∈ fs.map (·.1), lookup m kw = lookup m kw') →
@@ -283,6 +294,26 @@ theorem xCanonAttrs_names (XO : XOracles) (c : ClassOpts) :
         simp [this]
     · simp only [hm, Bool.false_eq_true, if_false, and_true_iff] at h
       have := xCanonAttrs_names XO c rest ((m, v) :: as) h.2 a ha
+      simp [this]
+
+theorem xCanonAttrsU_names (XO : XOracles) (c : ClassOpts) :
+    ∀ (fs : List (String × XDecl)) (attrs : List (String × PyVal)),
+      xCanonAttrsU XO c fs attrs = true → ∀ a ∈ attrs, a.1 ∈ fs.map (·.1)
+  | [], attrs, h, a, ha => by
+    simp only [xCanonAttrsU, List.isEmpty_iff] at h
+    subst h; simp at ha
+  | (n, f) :: rest, [], _, a, ha => by simp at ha
+  | (n, f) :: rest, (m, v) :: as, h, a, ha => by
+    simp only [xCanonAttrsU] at h
+    by_cases hm : (m == n) = true
+    · simp only [hm, if_true, and_true_iff] at h
+      have hmn : m = n := by simpa using hm
+      rcases List.mem_cons.mp ha with rfl | ha'
+      · simp [hmn]
+      · have := xCanonAttrsU_names XO c rest as h.2 a ha'
+        simp [this]
+    · simp only [hm, Bool.false_eq_true, if_false, and_true_iff] at h
+      have := xCanonAttrsU_names XO c rest ((m, v) :: as) h.2 a ha
       simp [this]
 
 theorem xCanonAttrs_nonNone (XO : XOracles) (c : ClassOpts) :
@@ -345,6 +376,51 @@ theorem rtx_struct (XO : XOracles) (opts : DeserOpts) (c : ClassOpts) (fields : 
         simp [hnames a ha']
   refine ⟨.dict (kw.map rt_toPair), ?_, ?_, rfl, ?_, ?_⟩
   · simp [serX, sInst, hfil, g1]
+  · simp [isJson, g2]
+  · simp [deserX, PyVal.isNone, dClassRef, rt_kwOfDict_map, g4, hex, vConstruct, hbind, g5, hex2]
+  · have hacc' : c.name ∈ c.accepts := by simpa using hacc
+    simp [validateX, vClassRef, hacc']
+
+theorem rtx_structU (XO : XOracles) (opts : DeserOpts) (c : ClassOpts) (fields : List (String × XDecl))
+    (attrs kw : List (String × PyVal))
+    (hacc : c.accepts.contains c.name = true)
+    (hreq : c.required.all (fun r => (lookup r attrs).isSome) = true)
+    (hnames : ∀ a ∈ attrs, a.1 ∈ fields.map (·.1))
+    (g1 : mapE (fun (a : String × PyVal) =>
+            bindE (serFieldX XO fields a.1 a.2) fun j => .ok (PyVal.str a.1, j)) attrs = .ok (kw.map rt_toPair))
+    (g2 : isJsonPairs (kw.map rt_toPair) = true)
+    (g3 : kw.map (·.1) = attrs.map (·.1))
+    (g4 : deserFieldsXU XO opts c kw fields = .ok attrs)
+    (g5 : validateFieldsX XO c attrs fields = .ok attrs) :
+    RTX XO opts (.structU c fields) (.inst c.name attrs) := by
+  have hkwnames : ∀ a ∈ kw, a.1 ∈ fields.map (·.1) := by
+    intro a ha
+    have : a.1 ∈ kw.map (·.1) := List.mem_map_of_mem ha
+    rw [g3] at this
+    rcases List.mem_map.mp this with ⟨b, hb, hab⟩
+    rw [← hab]; exact hnames b hb
+  have hex : deserExtras opts c (fields.map (·.1)) kw = [] := by
+    unfold deserExtras
+    have := rt_filter_names_nil (fun _ => opts.keepUndefined && (c.addl || !opts.ignoreInvalidAddl))
+      (fields.map (·.1)) kw hkwnames
+    simpa [Bool.and_assoc] using this
+  have hex2 : extrasOf c (fields.map (·.1)) attrs = [] := by
+    unfold extrasOf
+    exact rt_filter_names_nil (fun a => !(a.2.isNone && c.ignoreNone)) (fields.map (·.1)) attrs hnames
+  have hbind : bindOk c (fields.map (·.1)) attrs = true := by
+    unfold bindOk
+    simp only [and_true_iff, Bool.not_eq_true', List.any_eq_false, Bool.and_eq_false_iff]
+    constructor
+    · intro r hr
+      have := (List.all_eq_true.mp hreq) r hr
+      cases h : lookup r attrs <;> simp [h] at this ⊢
+    · by_cases ha : c.addl = true
+      · left; simp [ha]
+      · right
+        intro a ha'
+        simp [hnames a ha']
+  refine ⟨.dict (kw.map rt_toPair), ?_, ?_, rfl, ?_, ?_⟩
+  · simp [serX, sInstU, g1]
   · simp [isJson, g2]
   · simp [deserX, PyVal.isNone, dClassRef, rt_kwOfDict_map, g4, hex, vConstruct, hbind, g5, hex2]
   · have hacc' : c.name ∈ c.accepts := by simpa using hacc
@@ -500,7 +576,21 @@ theorem xround_trip (XO : XOracles) (opts : DeserOpts) : ∀ (x : XDecl) (v : Py
       · simp only [deserX, PyVal.isNone, Bool.false_and, Bool.false_eq_true, if_false]; exact this.2.2.1
       · simp only [validateX]; exact this.2.2.2
     | _ => simp at h
-  | .structU _ _, _, h => by simp [xFrag] at h
+  | .structU c fields, v, h => by
+    simp only [xFrag, and_true_iff] at h
+    obtain ⟨⟨⟨hign, hacc⟩, hnd⟩, hv⟩ := h
+    have hign' : c.ignoreNone = false := by simpa using hign
+    cases v with
+    | inst n attrs =>
+      simp only [and_true_iff] at hv
+      obtain ⟨⟨hn, hreq⟩, hcan⟩ := hv
+      have hn' : n = c.name := by simpa using hn
+      subst hn'
+      have hnd' : (fields.map (·.1)).Nodup := by simpa using hnd
+      rcases rtx_fieldsU XO opts c hign' fields attrs hnd' hcan with ⟨kw, g1, g2, g3, g4, g5⟩
+      exact rtx_structU XO opts c fields attrs kw hacc hreq
+        (xCanonAttrsU_names XO c fields attrs hcan) g1 g2 g3 g4 g5
+    | _ => simp at hv
   | .struct c fields, v, h => by
     simp only [xFrag, and_true_iff] at h
     obtain ⟨⟨hacc, hnd⟩, hv⟩ := h
@@ -642,6 +732,80 @@ theorem rtx_fields (XO : XOracles) (opts : DeserOpts) (c : ClassOpts) :
           have : (a.1 == n) = false := by simpa using hattn a ha
           simp only [serFieldX, this, Bool.false_eq_true, if_false])
       · simp only [deserFieldsX, rt_lookup_none_of_not_mem n kw hn_kw]; exact g4
+      · have := absent_argFor c [] ((m, v) :: as) n hc.1 (rt_lookup_none_of_not_mem n _ hn_attrs)
+        simp only [validateFieldsX, this]; exact g5
+
+theorem rtx_fieldsU (XO : XOracles) (opts : DeserOpts) (c : ClassOpts) (hign : c.ignoreNone = false) :
+    ∀ (fs : List (String × XDecl)) (attrs : List (String × PyVal)),
+    (fs.map (·.1)).Nodup → xCanonAttrsU XO c fs attrs = true →
+    ∃ kw : List (String × PyVal),
+      mapE (fun (a : String × PyVal) =>
+          bindE (serFieldX XO fs a.1 a.2) fun j => .ok (PyVal.str a.1, j)) attrs = .ok (kw.map rt_toPair)
+      ∧ isJsonPairs (kw.map rt_toPair) = true
+      ∧ kw.map (·.1) = attrs.map (·.1)
+      ∧ deserFieldsXU XO opts c kw fs = .ok attrs
+      ∧ validateFieldsX XO c attrs fs = .ok attrs
+  | [], attrs, _, hc => by
+    simp only [xCanonAttrsU, List.isEmpty_iff] at hc
+    subst hc
+    exact ⟨[], rfl, rfl, rfl, by simp [deserFieldsXU], by simp [validateFieldsX]⟩
+  | (n, f) :: rest, [], hnd, hc => by
+    simp only [xCanonAttrsU, and_true_iff] at hc
+    have hnd' : (rest.map (·.1)).Nodup := (List.nodup_cons.mp (by simpa using hnd)).2
+    rcases rtx_fieldsU XO opts c hign rest [] hnd' hc.2 with ⟨kw, _, _, g3, g4, g5⟩
+    have hkw : kw = [] := by simpa using g3
+    subst hkw
+    refine ⟨[], rfl, rfl, rfl, ?_, ?_⟩
+    · simp only [deserFieldsXU, lookup]; exact g4
+    · have := absent_argFor c [] [] n hc.1 rfl
+      simp only [validateFieldsX, this]; exact g5
+  | (n, f) :: rest, (m, v) :: as, hnd, hc => by
+    have hnd0 := List.nodup_cons.mp (show (n :: rest.map (·.1)).Nodup by simpa using hnd)
+    simp only [xCanonAttrsU] at hc
+    by_cases hm : (m == n) = true
+    · have hmn : m = n := by simpa using hm
+      subst hmn
+      simp only [hm, if_true, and_true_iff] at hc
+      obtain ⟨hff, hrest⟩ := hc
+      rcases xround_trip XO opts f v hff with ⟨j, h1, h2, h3, h4, h5⟩
+      rcases rtx_fieldsU XO opts c hign rest as hnd0.2 hrest with ⟨kw, g1, g2, g3, g4, g5⟩
+      have hasn : ∀ a ∈ as, a.1 ≠ m := fun a ha hEq =>
+        hnd0.1 (hEq ▸ xCanonAttrsU_names XO c rest as hrest a ha)
+      have hrn : ∀ k ∈ rest.map (·.1), k ≠ m := fun k hk hEq => hnd0.1 (hEq ▸ hk)
+      refine ⟨(m, j) :: kw, ?_, ?_, ?_, ?_, ?_⟩
+      · have htail : mapE (fun (a : String × PyVal) =>
+            bindE (serFieldX XO ((m, f) :: rest) a.1 a.2) fun j => .ok (PyVal.str a.1, j)) as
+            = mapE (fun (a : String × PyVal) =>
+            bindE (serFieldX XO rest a.1 a.2) fun j => .ok (PyVal.str a.1, j)) as :=
+          rt_mapE_congr _ _ as (fun a ha => by
+            have : (a.1 == m) = false := by simpa using hasn a ha
+            simp only [serFieldX, this, Bool.false_eq_true, if_false])
+        simp only [mapE]
+        rw [htail, g1]
+        simp [serFieldX, h1, rt_toPair]
+      · simp [isJsonPairs, isJsonKey, rt_toPair, h2]; simpa [rt_toPair] using g2
+      · simp [g3]
+      · have hcong := deserFieldsXU_congr XO opts c ((m, j) :: kw) kw rest
+          (fun k hk => rt_lookup_cons_ne k m j kw (hrn k hk))
+        simp [deserFieldsXU, lookup, hign, h4, hcong, g4]
+      · have hcong := validateFieldsX_congr XO c ((m, v) :: as) as rest
+          (fun k hk => rt_lookup_cons_ne k m v as (hrn k hk))
+        simp [validateFieldsX, argFor, lookup, hign, h5, hcong, g5]
+    · simp only [hm, Bool.false_eq_true, if_false, and_true_iff] at hc
+      rcases rtx_fieldsU XO opts c hign rest ((m, v) :: as) hnd0.2 hc.2 with ⟨kw, g1, g2, g3, g4, g5⟩
+      have hnames := xCanonAttrsU_names XO c rest ((m, v) :: as) hc.2
+      have hattn : ∀ a ∈ ((m, v) :: as), a.1 ≠ n := fun a ha hEq => hnd0.1 (hEq ▸ hnames a ha)
+      have hn_attrs : n ∉ ((m, v) :: as).map (·.1) := by
+        intro hmem
+        rcases List.mem_map.mp hmem with ⟨a, ha, hEq⟩
+        exact hattn a ha hEq
+      have hn_kw : n ∉ kw.map (·.1) := by rw [g3]; exact hn_attrs
+      refine ⟨kw, ?_, g2, g3, ?_, ?_⟩
+      · rw [← g1]
+        exact rt_mapE_congr _ _ _ (fun a ha => by
+          have : (a.1 == n) = false := by simpa using hattn a ha
+          simp only [serFieldX, this, Bool.false_eq_true, if_false])
+      · simp only [deserFieldsXU, rt_lookup_none_of_not_mem n kw hn_kw]; exact g4
       · have := absent_argFor c [] ((m, v) :: as) n hc.1 (rt_lookup_none_of_not_mem n _ hn_attrs)
         simp only [validateFieldsX, this]; exact g5
 end
